@@ -1,3 +1,230 @@
-import Gzx.Model.OneD
+/-
+  C03 — 1-D symbologies: a written barcode reads back as the same content and format.
+  Property theorems only (helper lemmas: Gzx/Proofs/OneD.lean).
+  Model: Gzx/Model/OneD.lean, tied to /repo/oned by the `c03` correspondence suite; pattern tables are
+  parameters (`Tables`), the regenerated tables of /repo are shown equal to `refTables` and well-formed in
+  Obligations/C03.lean.
+-/
+import Gzx.Proofs.OneD
+import Gzx.Properties.C10
+set_option linter.unusedSimpArgs false
 namespace Gzx.Properties.C03
+open Gzx Gzx.CheckDigit Gzx.OneD
+
+/-! ### full-ASCII escaping (Code 39 extended mode, Code 93) -/
+
+/-- Clause "Code 39 incl. full ASCII … reads back as exactly that content", escaping layer:
+    `code39DecodeExtended ∘ code39TryToConvertToExtendedMode = id` on every ASCII string (0..127). -/
+theorem ext39_inv (cs : List Nat) (h : ∀ c ∈ cs, c < 128) :
+    ∃ e, code39Escape cs = .ok e ∧ code39Unescape e = .ok cs := by
+  induction cs with
+  | nil => exact ⟨[], rfl, rfl⟩
+  | cons c cs ih =>
+    obtain ⟨e2, h2, hu2⟩ := ih (fun x hx => h x (by simp [hx]))
+    obtain ⟨e1, h1, hu1⟩ := unescape39_escape1 c (h c (by simp)) e2
+    refine ⟨e1 ++ e2, ?_, ?_⟩
+    · simp [code39Escape, h1, h2, bind, Except.bind, pure, Except.pure]
+    · rw [hu1, hu2]; rfl
+
+/-- the same for Code 93: `code93DecodeExtended ∘ code93ConvertToExtended = id` on ASCII 0..127 -/
+theorem ext93_inv (cs : List Nat) (h : ∀ c ∈ cs, c < 128) :
+    ∃ e, code93Escape cs = .ok e ∧ code93Unescape e = .ok cs := by
+  induction cs with
+  | nil => exact ⟨[], rfl, rfl⟩
+  | cons c cs ih =>
+    obtain ⟨e2, h2, hu2⟩ := ih (fun x hx => h x (by simp [hx]))
+    obtain ⟨e1, h1, hu1⟩ := unescape93_escape1 c (h c (by simp)) e2
+    refine ⟨e1 ++ e2, ?_, ?_⟩
+    · simp [code93Escape, h1, h2, bind, Except.bind, pure, Except.pure]
+    · rw [hu1, hu2]; rfl
+
+/-- bytes ≥ 128 cannot be escaped: both writers refuse them (clause "characters outside the alphabet are rejected") -/
+theorem ext_rejects_non_ascii (c : Nat) (hc : 128 ≤ c) :
+    code39Escape1 c = .error .writer ∧ code93Escape1 c = .error .writer := by
+  constructor
+  · unfold code39Escape1
+    repeat (rw [if_neg (by omega)])
+  · unfold code93Escape1
+    repeat (rw [if_neg (by omega)])
+
+/-! ### module level: the pattern tables are inverted exactly -/
+
+/-- Clause "Code 128 … reads back", module layer: for every table of 106 six-element patterns and a seven-element
+    STOP pattern with positive widths, pairwise distinct, the module pattern the writer draws for symbol
+    characters `body ++ [STOP]` is split back into exactly these characters (run lengths in groups of six, table
+    lookup), i.e. module-level reading = symbol-level reading of what was drawn. -/
+theorem code128_ideal_decode_encode (T : Tables) (hT : WF128 T.code128 = true) (body : List Nat)
+    (hb : ∀ c ∈ body, c < 106) :
+    ∃ mods, code128Draw T (body ++ [106]) = .ok mods ∧
+      code128Ideal T mods = code128ReadCodes (body ++ [106]) := by
+  simp only [WF128, Bool.and_eq_true, beq_iff_eq, decide_eq_true_eq] at hT
+  obtain ⟨⟨⟨hlen, h6⟩, h7⟩, hnd⟩ := hT
+  generalize hP : T.code128 = P at *
+  let W := body.map (fun c => P.getD c [])
+  let stop := P.getD 106 []
+  have hW : ∀ p ∈ W, p.length = 6 ∧ ∀ w ∈ p, 0 < w := by
+    intro p hp
+    obtain ⟨c, hc, rfl⟩ := List.mem_map.mp hp
+    have := take_all_getD P 106 _ h6 c (hb c hc) (by have := hb c hc; omega)
+    simp only [Bool.and_eq_true, beq_iff_eq, List.all_eq_true, decide_eq_true_eq] at this
+    exact this
+  have hstop : stop.length = 7 ∧ ∀ w ∈ stop, 0 < w := by
+    have hm : stop ∈ P.drop 106 := by
+      have : (P.drop 106)[0]'(by rw [List.length_drop]; omega) = stop := by
+        simp [stop, List.getD_eq_getElem?_getD, List.getElem?_eq_getElem (show 106 < P.length by omega)]
+      rw [← this]; exact List.getElem_mem _
+    have := List.all_eq_true.mp h7 _ hm
+    simp only [Bool.and_eq_true, beq_iff_eq, List.all_eq_true, decide_eq_true_eq] at this
+    exact this
+  have hdraw : code128Draw T (body ++ [106]) = .ok (appendPattern (W.flatten ++ stop) true) := by
+    unfold code128Draw
+    rw [hP]
+    have hm : (body ++ [106]).mapM (nth P) = .ok ((body ++ [106]).map (fun c => P.getD c [])) := by
+      apply mapM_ok
+      intro c hc
+      simp only [List.mem_append, List.mem_singleton] at hc
+      apply nth_getD
+      rcases hc with hc | rfl
+      · have := hb c hc; omega
+      · omega
+    simp only [hm, bind, Except.bind, pure, Except.pure, List.map_append, List.map_cons, List.map_nil,
+      List.flatten_append, List.flatten_cons, List.flatten_nil, List.append_nil, List.map_map]
+    have he : ∀ p ∈ W, p.length % 2 = 0 := fun p hp => by have := (hW p hp).1; omega
+    have := flatten_map_appendPattern W true he
+    simp only [W, List.map_map] at this
+    rw [this]
+    exact congrArg _ (appendPattern_even_append _ _ true (flatten_length_even W he))
+  refine ⟨_, hdraw, ?_⟩
+  -- the reading side
+  have hRpos : ∀ w ∈ W.flatten ++ stop, 0 < w := by
+    intro w hw
+    simp only [List.mem_append, List.mem_flatten] at hw
+    rcases hw with ⟨p, hp, hwp⟩ | hw
+    · exact (hW p hp).2 w hwp
+    · exact hstop.2 w hw
+  have hRne : W.flatten ++ stop ≠ [] := by
+    intro e
+    have := congrArg List.length e
+    simp only [List.length_append, hstop.1, List.length_nil] at this; omega
+  have hhead := appendPattern_head _ true hRne hRpos
+  have hruns := runs_appendPattern _ true hRpos
+  have hWlen : W.flatten.length = 6 * body.length := by
+    have := flatten_length_const W 6 (fun p hp => (hW p hp).1)
+    simpa [W] using this
+  have htake : (W.flatten ++ stop).take ((W.flatten ++ stop).length - 7) = W.flatten := by
+    have : (W.flatten ++ stop).length - 7 = W.flatten.length := by simp [hstop.1]
+    rw [this, List.take_left']
+    rfl
+  have hdrop : (W.flatten ++ stop).drop ((W.flatten ++ stop).length - 7) = stop := by
+    have : (W.flatten ++ stop).length - 7 = W.flatten.length := by simp [hstop.1]
+    rw [this, List.drop_left']
+    rfl
+  have hchunks := chunks_exact 6 (by omega) W (fun p hp => (hW p hp).1)
+  have hidx : W.mapM (patLookup P) = .ok body := by
+    have h1 := mapM_ok (patLookup P) (fun p => (patIndex? p P).getD 0) W (by
+      intro p hp
+      obtain ⟨c, hc, rfl⟩ := List.mem_map.mp hp
+      unfold patLookup
+      rw [patIndex?_getD P hnd c (by have := hb c hc; omega)]
+      rfl)
+    rw [h1]
+    congr 1
+    simp only [W, List.map_map]
+    conv => rhs; rw [← List.map_id body]
+    apply List.map_congr_left
+    intro c hc
+    show (patIndex? (P.getD c []) P).getD 0 = id c
+    rw [patIndex?_getD P hnd c (by have := hb c hc; omega)]
+    rfl
+  have hstopIdx : patIndex? stop P = some 106 := patIndex?_getD P hnd 106 (by omega)
+  unfold code128Ideal
+  rw [hP]
+  simp only [hhead, hruns, ne_eq, not_true_eq_false, if_false, bind, Except.bind]
+  have h7' : ¬ (W.flatten ++ stop).length < 7 := by simp [hstop.1]
+  simp only [h7', if_false, htake, hdrop, hWlen]
+  have h6' : 6 * body.length % 6 = 0 := by omega
+  simp only [h6', not_true_eq_false, if_false]
+  rw [← hWlen, hchunks, hidx]
+  simp only [hstopIdx]
+
+/-! ### Code 128 code-set automaton -/
+
+/-- all sequences of at most `n` character classes: digit pair "12", single digit "7", upper-case "A",
+    lower-case "a", control character 0x01 — the classes `code128ChooseCode` distinguishes -/
+def classSeqs : Nat → List (List Nat)
+  | 0 => [[]]
+  | n + 1 => [] :: (classSeqs n).flatMap (fun s => [[49, 50] ++ s, [55] ++ s, [65] ++ s, [97] ++ s, [1] ++ s])
+
+/-- FULL STATEMENT (not proved in general): for every ASCII content of 1..80 characters and every forced code set
+    the content is admissible for, `code128ReadCodes (code128Codes content forced) = content` — any trace of
+    the `chooseCode` automaton decodes to the content.
+    PROVED: the statement for all 780 non-empty class sequences of length ≤ 4 (every code-set transition pattern
+    of that depth, including the start-code choice, A↔B↔C switches and the removal of the check character),
+    by kernel evaluation.  Missing: the induction over the writer loop for arbitrary characters and lengths
+    (the invariant is: reader state after the emitted prefix = (current code set, content prefix), weights equal);
+    the correspondence suite covers depth ≤ 6, every ASCII character and random contents on the real code. -/
+theorem code128_codeset_inv_partial :
+    ((classSeqs 4).filter (· ≠ [])).all
+      (fun s => (match code128Codes s none with | .ok cs => code128ReadCodes cs | .error e => .error e) == .ok s) = true := by
+  decide +kernel
+
+/-- forced code sets on admissible contents (A: control + upper case, B: printable, C: digit pairs) -/
+theorem code128_forced_inv_examples :
+    (match code128Codes [1, 65, 48, 95, 0] (some 101) with | .ok cs => code128ReadCodes cs | .error e => .error e) = .ok [1, 65, 48, 95, 0] ∧
+    (match code128Codes [97, 65, 48, 126, 33] (some 100) with | .ok cs => code128ReadCodes cs | .error e => .error e) = .ok [97, 65, 48, 126, 33] ∧
+    (match code128Codes [49, 50, 51, 52, 48, 48] (some 99) with | .ok cs => code128ReadCodes cs | .error e => .error e) = .ok [49, 50, 51, 52, 48, 48] := by
+  decide +kernel
+
+/-! ### rejection of inadmissible contents -/
+
+/-- ITF: odd length, more than 80 digits or a non-digit is a WriterException; everything else is accepted -/
+theorem itf_writer_rejects (contents : List Nat) :
+    itfSymbols contents =
+      if contents.length % 2 ≠ 0 ∨ contents.length > 80 ∨ allDigits contents = false then .error .writer
+      else .ok (digitVals contents) := by
+  unfold itfSymbols
+  by_cases h1 : contents.length % 2 ≠ 0
+  · simp [h1, throw, throwThe, MonadExceptOf.throw, bind, Except.bind]
+  · by_cases h2 : contents.length > 80
+    · simp [h1, h2, throw, throwThe, MonadExceptOf.throw, bind, Except.bind, pure, Except.pure]
+    · cases h3 : allDigits contents <;>
+        simp [h1, h2, h3, throw, throwThe, MonadExceptOf.throw, bind, Except.bind, pure, Except.pure]
+
+/-- Code 128: empty or longer than 80 characters, or a character the (forced) code set cannot hold, is a WriterException -/
+theorem code128_writer_rejects (contents : List Nat) (forced : Option Nat)
+    (h : contents.length < 1 ∨ contents.length > 80 ∨ contents.all (c128CharOk forced) = false) :
+    code128Codes contents forced = .error .writer := by
+  unfold code128Codes
+  by_cases h1 : contents.length < 1 ∨ contents.length > 80
+  · simp only [h1, if_true, throw, throwThe, MonadExceptOf.throw, bind, Except.bind]
+  · have h3 : contents.all (c128CharOk forced) = false := by
+      rcases h with h | h | h
+      · exact absurd (Or.inl h) h1
+      · exact absurd (Or.inr h) h1
+      · exact h
+    simp only [h1, if_false, h3, Bool.not_false, if_true, throw, throwThe, MonadExceptOf.throw, bind, Except.bind,
+      pure, Except.pure]
+
+/-- characters ≥ 128 that are not FNC escapes are never admissible -/
+theorem code128_char_rejected (forced : Option Nat) (c : Nat) (hc : c > 127) (hf : c < 0xF1 ∨ c > 0xF4) :
+    c128CharOk forced c = false := by
+  unfold c128CharOk
+  have h1 : ¬ (c = 0xF1 ∨ c = 0xF2 ∨ c = 0xF3 ∨ c = 0xF4) := by omega
+  have h2 : ¬ c ≤ 127 := by omega
+  simp [h1, h2]
+
+/-- UPC/EAN: the module encoders fail exactly when the check-digit stage of C10 fails (wrong length, non-digit,
+    wrong supplied check digit — theorems writer_rejects_wrong_check, writer_rejects_length_and_alphabet,
+    upce_writer_rejects_wrong_check of Properties/C10) -/
+theorem upcean_writer_rejects (T : Tables) (contents : List Nat) (e : Fault) :
+    (stdWriterContents 13 contents = .error e → ean13Modules T contents = .error e) ∧
+    (stdWriterContents 8 contents = .error e → ean8Modules T contents = .error e) ∧
+    (stdWriterContents 13 (48 :: contents) = .error e → upcaModules T contents = .error e) ∧
+    (upceWriterContents contents = .error e → upceModules T contents = .error e) := by
+  refine ⟨?_, ?_, ?_, ?_⟩ <;> intro h
+  · simp [ean13Modules, h, bind, Except.bind]
+  · simp [ean8Modules, h, bind, Except.bind]
+  · simp [upcaModules, ean13Modules, h, bind, Except.bind]
+  · simp [upceModules, h, bind, Except.bind]
+
 end Gzx.Properties.C03
